@@ -5,6 +5,9 @@ INSTALL = ["market_ops", "market_price", "matching"]
 
 
 def _run(seed):
+    if seed % 2 == 1:
+        drivers.deep_book_history(seed)
+        return
     drivers.market_history(seed, offgrid=(seed % 3 == 0), tick=(0.5 if seed % 5 == 0 else 1.0))
 
 
